@@ -16,9 +16,10 @@ Record case := mkcase {
   ctree : item }.           (* dump of the interface{} the real Decoder produced *)
 
 (* a nil []byte under NilCollectionToZeroLength is written through the driver's writeNilBytes, not through
-   EncodeStringBytesRaw: an empty byte string in cbor / simple / binc, an empty STRING (fixstr 0) in msgpack
-   even with WriteExt, and an empty array by encodeValue's nil-slice branch (top-level pointer to a nil
-   []byte) and the map fast paths: all are "empty" to every consumer *)
+   EncodeStringBytesRaw (which is what Generic/Enc.v's IBytes [] stands for): a zero-length byte string in cbor
+   and simple, a zero-length STRING (fixstr 0) in msgpack even with WriteExt, and a zero-length ARRAY in binc
+   (binc.go writeNilBytes uses the bincVdArray descriptor).  Since F05-7 every path of a format writes the same
+   thing.  All three are "empty" to every consumer; the comparison identifies them, only under that option. *)
 Fixpoint relax (i : item) : item :=
   match i with
   | IBytes [] => IArr []
